@@ -95,7 +95,7 @@ for pid in ALL:
             "thorough_cmd": "/verif/bin/%s --tier thorough" % pid.lower(),
             "evidence_file": "/verif/evidence/%s.json" % pid,
             "replay_cmd_template": "/verif/bin/%s --replay {path}" % pid.lower(),
-            "engine": "dvidw",
+            "engine": {"C09": "probes", "C10": "probes", "C15": "probes", "C06": "dvidw+probes", "C18": "dvidw+probes"}.get(pid, "dvidw"),
             "level_claimed": {"category": level, "text": text, "design_ref": ref},
             "level_note": note,
             "technique": tech,
